@@ -211,7 +211,7 @@ def parse_operand(s):
             return Operand('move' if kw == 'move ' else 'copy', place=parse_place(s[len(kw):]))
     if s.startswith('const '):
         return Operand('const', const=s[len('const '):].strip())
-    if re.match(r'^[A-Za-z_<][\w:<>, &\'\[\]]*::\w+(::<.*>)?$', s):
+    if re.match(r'^[A-Za-z_<][\w:<>, &\'\[\]]*::\w+(::<.*>)?$', s) or re.match(r'^[A-Za-z][A-Za-z0-9_]*$', s):
         # a function item passed by name (zero-sized value): `path::to::function`
         return Operand('const', const=s)
     raise MirError(f'cannot parse operand {s!r}')
